@@ -595,6 +595,10 @@ def raises_label(desc, tail, exc, site):
         inner = desc["inner"]
         if inner["class"] == "groupby-agg" and inner.get("sel") == "cols":
             # df.groupby(key)[[c1, c2]].agg()[...]: the selection is pushed into the frame, the column list of the groupby stays
+            if et == "KeyError" and str(exc).strip("'\"").lstrip("-").isdigit() and (inner.get("kw") or {}).get("split_out"):
+                # a different mechanism than the (repaired) 'Columns not found': the lowered graph of the split_out
+                # aggregation refers to a partition number that the layer underneath does not produce
+                return "select-after:groupby-agg:column-list-selection&split_out>consumer:raises:KeyError(partition-number)"
             return "select-after:groupby-agg:column-list-selection>consumer:raises:%s" % et
         return "select-after:%s:%s>%s:raises:%s" % (inner["class"], inner["form"], Q.TAIL_FAMILY[t["op"]], et)
     return "%s:raises:%s" % (Q.consumer_head(desc, t), et)
